@@ -104,7 +104,12 @@ Inductive bridge_case :=
 (* one direction of a real mesh stream (small transfers): the Write/Close calls of the writing
    application and the Read results of the reading application; [dialler] = written by the
    dialling side (the marker is added and stripped by receptor, the application never sees it) *)
-| CStream (dialler : bool) (written : list call) (read : list rd).
+| CStream (dialler : bool) (written : list call) (read : list rd)
+(* the accept handshake against a RAW QUIC client (no DialContext, so the first byte is the
+   client's choice): the client's Write/Close calls on its stream, and what Listener.Accept did:
+   None = it returned an error (and receptor closed the connection), Some (d, e) = it returned a
+   Conn from which the application read bytes d and then saw e *)
+| CAccept (written : list call) (obs : option (bytes * rstat)).
 
 Definition bridge_check (c : bridge_case) : bool :=
   match c with
@@ -112,4 +117,12 @@ Definition bridge_check (c : bridge_case) : bool :=
   | CStream _ written read =>
     let '(d, e) := stream_of read in
     beq_bytes d (writes_of written) && beq_rstat e (if Nat.eqb (closes_of written) 0 then ROk else REof)
+  | CAccept written obs =>
+    (* by the marker theorems the outcome depends on the stream only, not on its chunking *)
+    let e := if Nat.eqb (closes_of written) 0 then ROk else REof in
+    match accept_stream [mkrd (writes_of written) e], obs with
+    | Refused, None => true
+    | Accepted rest, Some (d, e') => let '(d0, e0) := stream_of rest in beq_bytes d0 d && beq_rstat e0 e'
+    | _, _ => false
+    end
   end.
